@@ -448,6 +448,13 @@ pub fn spec_for(prop: &str, tier: &str) -> Option<CrashSpec> {
                         x.extend(tail);
                         w.push(x);
                     }
+                    // a zero-length entry in the last header-sized slot of a block
+                    let last_slot = vec![Op::Append { t: 0, len: s.fill - (s.bs - s.fill) }, Op::Append { t: 0, len: 0 }];
+                    for tail in enum_seqs(&alpha, if thorough { 3 } else { 2 }, 1) {
+                        let mut x = last_slot.clone();
+                        x.extend(tail);
+                        w.push(x);
+                    }
                     if thorough {
                         for (_n, pre) in crate::checks::prestates() {
                             for tail in enum_seqs(&alpha, 2, 1) {
@@ -557,6 +564,21 @@ pub fn spec_for(prop: &str, tier: &str) -> Option<CrashSpec> {
                     workloads.push(w);
                 }
             }
+            // a sealed block of two equal entries and a small entry in the tail, read with a byte
+            // budget that ends exactly behind the first entry's header + payload
+            {
+                let pre = vec![Op::Append { t: 0, len: half }, Op::Append { t: 0, len: half }, Op::Append { t: 0, len: 1 }];
+                let mut a2 = alpha.clone();
+                a2.push(Op::BatchRead { t: 0, budget: half + (s.bs - s.fill), ckpt: true, start: None });
+                for suffix in enum_seqs(&a2, 2, 1) {
+                    if !suffix.iter().any(|o| matches!(o, Op::BatchRead { budget, .. } if *budget == half + (s.bs - s.fill))) {
+                        continue;
+                    }
+                    let mut w = pre.clone();
+                    w.extend(suffix);
+                    workloads.push(w);
+                }
+            }
             let mut cfgs = vec![mk(Consistency::Strict, Backend::Fd, Fsync::No), mk(Consistency::Alo(2), Backend::Fd, Fsync::No)];
             if thorough {
                 cfgs.push(mk(Consistency::Strict, Backend::Mmap, Fsync::No));
@@ -593,6 +615,14 @@ pub fn spec_for(prop: &str, tier: &str) -> Option<CrashSpec> {
                     let full_file = vec![Op::Append { t: 0, len: over }, Op::Append { t: 1, len: half }];
                     for tail in enum_seqs(&alpha[..3], if thorough { 3 } else { 2 }, 0) {
                         let mut x = full_file.clone();
+                        x.extend(tail);
+                        w.push(x);
+                    }
+                    // equal entries, one per block: successive durable cursor positions differ
+                    // only in the block
+                    let one_per_block = vec![Op::Append { t: 0, len: s.fill }, Op::Append { t: 0, len: s.fill }, Op::Append { t: 0, len: s.fill }];
+                    for tail in enum_seqs(&alpha[4..], 3, 0) {
+                        let mut x = one_per_block.clone();
                         x.extend(tail);
                         w.push(x);
                     }
